@@ -3,6 +3,12 @@
 // pools and prints one self-contained case per message: observed pre-state, message, result class,
 // observed post-state (format: lean/Driver/C07.lean, command c07.k).  After every successful message
 // the module's registered invariants are run on the real state.
+//
+// Governance acts WHILE pools exist (case c07.gov): the swap fee changes between swaps, pools holding liquidity
+// are removed from the allowed list and re-added later, new pools are allowed mid-run.  The fee and the allowed
+// list written on every case line are read back from the x/params subspace right before the message
+// (kapp.ReadParams): the parameters in force, never a value remembered by the harness or served by the keeper.
+// A history uses 3 denominations (3 pools) or 4 (6 pools, every denomination shared by three pools).
 package main
 
 import (
@@ -25,11 +31,20 @@ import (
 )
 
 // denominations in lexical order: index order = the order types.PoolID sorts them
-var denoms = []string{"bnb", "ukava", "usdx"}
+var denoms = []string{"bnb", "hard", "ukava", "usdx"}
 
 type pid struct{ lo, hi int }
 
-var pids = []pid{{0, 1}, {0, 2}, {1, 2}}
+// pool ids over the first nD denominations, in the order of Drv.C07.pairs: (0,1),(0,2),…,(1,2),…
+func pairsOf(nD int) []pid {
+	var ps []pid
+	for i := 0; i < nD; i++ {
+		for j := i + 1; j < nD; j++ {
+			ps = append(ps, pid{i, j})
+		}
+	}
+	return ps
+}
 
 const nA = 3
 
@@ -40,6 +55,9 @@ type world struct {
 	base  sdk.Context
 	addrs []sdk.AccAddress
 	macc  sdk.AccAddress
+	// per history (set on a copy of the worker's world): the denominations in play and their pool ids
+	nD   int
+	pids []pid
 }
 
 func mkWorld() *world {
@@ -64,12 +82,15 @@ type obs struct {
 	pools  []*big.Int // 3 per pool id
 	shares []*big.Int // nA x nPools
 	bal    []*big.Int // (nA+1) x nD, last row = module account
+	nD     int
+	pids   []pid
 }
 
 func (w *world) observe(ctx sdk.Context) obs {
 	k := w.tApp.GetSwapKeeper()
 	bk := w.tApp.GetBankKeeper()
-	var o obs
+	o := obs{nD: w.nD, pids: w.pids}
+	pids, denoms := w.pids, denoms[:w.nD]
 	seen := 0
 	for _, p := range pids {
 		rec, found := k.GetPool(ctx, poolName(p))
@@ -113,13 +134,13 @@ func (w *world) observe(ctx sdk.Context) obs {
 }
 
 func (o obs) pool(i int) (a, b, s *big.Int) { return o.pools[3*i], o.pools[3*i+1], o.pools[3*i+2] }
-func (o obs) ubal(who, d int) *big.Int      { return o.bal[who*len(denoms)+d] }
-func (o obs) share(who, i int) *big.Int     { return o.shares[who*len(pids)+i] }
+func (o obs) ubal(who, d int) *big.Int      { return o.bal[who*o.nD+d] }
+func (o obs) share(who, i int) *big.Int     { return o.shares[who*len(o.pids)+i] }
 
 // reserves of pool i as seen from token d: (reserve of d, reserve of the other token)
 func (o obs) reserves(i, d int) (*big.Int, *big.Int) {
 	a, b, _ := o.pool(i)
-	if pids[i].lo == d {
+	if o.pids[i].lo == d {
 		return a, b
 	}
 	return b, a
@@ -189,9 +210,15 @@ type op struct {
 	gen    string   // generator class (coverage accounting)
 }
 
-func (w *world) genOp(r *c.Rng, o obs, fee *big.Int) op {
+// force >= 0 directs the message at pool `force` (a pool governance just acted on); forceKind, when not empty,
+// also fixes the message kind.
+func (w *world) genOp(r *c.Rng, o obs, fee *big.Int, force int, forceKind string) op {
+	pids := w.pids
 	who := r.Intn(nA)
 	i := r.Intn(len(pids))
+	if force >= 0 {
+		i = force
+	}
 	p := pids[i]
 	d1, d2 := p.lo, p.hi
 	if r.Bool() { // the message may name the two tokens in either order
@@ -206,7 +233,14 @@ func (w *world) genOp(r *c.Rng, o obs, fee *big.Int) op {
 		kinds = []string{"dep", "dep", "dep", "wd", "sx", "sfx"}
 	}
 	kind := c.Pick(r, kinds)
-	if kind == "wd" && r.Chance(75) { // mostly an account that owns shares of some pool
+	if forceKind != "" {
+		kind = forceKind
+	}
+	if kind == "wd" && force >= 0 { // a holder of the pool governance acted on
+		for t := 0; t < 12 && o.share(who, i).Sign() == 0; t++ {
+			who = r.Intn(nA)
+		}
+	} else if kind == "wd" && r.Chance(75) { // mostly an account that owns shares of some pool
 		for t := 0; t < 12 && o.share(who, i).Sign() == 0; t++ {
 			who, i = r.Intn(nA), r.Intn(len(pids))
 		}
@@ -279,7 +313,13 @@ func (w *world) genOp(r *c.Rng, o obs, fee *big.Int) op {
 		res.z = slipLimit(r, exact)
 	case "wd":
 		own := o.share(who, i)
-		switch r.Intn(6) {
+		pick := r.Intn(6)
+		if force >= 0 && r.Chance(50) {
+			pick = 6 // everything the account owns: the liquidity provider leaves the pool
+		}
+		switch pick {
+		case 6:
+			res.z = new(big.Int).Set(own)
 		case 0:
 			res.z = bi(1)
 		case 1:
@@ -490,18 +530,64 @@ func fund(r *c.Rng) *big.Int {
 	}
 }
 
-func (w *world) seq(out *c.Out, seq int, r *c.Rng) {
+// readParams: the swap parameters in force, straight from the x/params subspace (what governance wrote)
+func (w *world) readParams(ctx sdk.Context) (fee *big.Int, allowed []bool) {
+	var sp swaptypes.Params
+	kapp.ReadParams(w.tApp, ctx, "swap", &sp)
+	allowed = make([]bool, len(w.pids))
+	for _, ap := range sp.AllowedPools {
+		known := false
+		for i, p := range w.pids {
+			if ap.Name() == poolName(p) {
+				allowed[i], known = true, true
+			}
+		}
+		if !known {
+			panic("harness: allowed pool outside the pool set: " + ap.Name())
+		}
+	}
+	return sp.SwapFee.BigInt(), allowed
+}
+
+func boolsOf(xs []bool) string {
+	al := make([]string, len(xs))
+	for j, v := range xs {
+		al[j] = c.B(v)
+	}
+	return strings.Join(al, ",")
+}
+
+var govFees = []*big.Int{bi(0), bi(1), bi(1500000000000000), bi(3000000000000000), bi(10000000000000000), quo(P, bi(2)), sub(P, bi(1))}
+
+func (w0 *world) seq(out *c.Out, seq int, r *c.Rng) {
+	ws := *w0
+	w := &ws
+	w.nD = 3
+	if r.Chance(30) {
+		w.nD = 4
+	}
+	w.pids = pairsOf(w.nD)
+	pids := w.pids
 	ctx, _ := w.base.CacheContext()
 	k := w.tApp.GetSwapKeeper()
 	bk := w.tApp.GetBankKeeper()
-	// parameters of this history
-	fee := c.Pick(r, []*big.Int{bi(0), bi(1), bi(1500000000000000), bi(1500000000000000), bi(3000000000000000),
+	// parameters at the start of this history
+	fee0 := c.Pick(r, []*big.Int{bi(0), bi(1), bi(1500000000000000), bi(1500000000000000), bi(3000000000000000),
 		quo(P, bi(2)), sub(P, bi(1)), r.BigBelow(P)})
-	allowed := []bool{true, true, true}
-	if r.Chance(25) {
-		allowed[r.Intn(3)] = false
+	allowed0 := make([]bool, len(pids))
+	for i := range allowed0 {
+		allowed0[i] = true
 	}
-	setParams := func() {
+	switch r.Intn(8) {
+	case 0, 1:
+		allowed0[r.Intn(len(pids))] = false
+	case 2: // only one pool allowed at first: the others are allowed mid-run
+		for i := range allowed0 {
+			allowed0[i] = false
+		}
+		allowed0[r.Intn(len(pids))] = true
+	}
+	setParams := func(fee *big.Int, allowed []bool) {
 		var ap swaptypes.AllowedPools
 		for i, p := range pids {
 			if allowed[i] {
@@ -511,10 +597,10 @@ func (w *world) seq(out *c.Out, seq int, r *c.Rng) {
 		sp := swaptypes.NewParams(ap, dec(fee))
 		kapp.SetParams(w.tApp, ctx, "swap", &sp, func() { k.SetParams(ctx, sp) })
 	}
-	setParams()
+	setParams(fee0, allowed0)
 	for _, a := range w.addrs {
 		cs := sdk.Coins{}
-		for d := range denoms {
+		for d := 0; d < w.nD; d++ {
 			if x := fund(r); x.Sign() > 0 {
 				cs = cs.Add(coin(d, x))
 			}
@@ -523,20 +609,116 @@ func (w *world) seq(out *c.Out, seq int, r *c.Rng) {
 			must(w.tApp.FundAccount(ctx, a, cs))
 		}
 	}
+	// how often governance acts in this history
+	govRate := []int{2, 5, 5, 12, 25}[r.Intn(5)]
+	focus, focusLeft := -1, 0 // pool governance just acted on, and how many directed messages are left
+	var focusKinds []string
 	nops := c.Budget(50, 150)
 	for i := 0; i < nops; i++ {
-		// governance may change the parameters between messages
-		if r.Chance(3) {
-			j := r.Intn(3)
-			allowed[j] = !allowed[j]
-			setParams()
-		}
-		if r.Chance(2) {
-			fee = c.Pick(r, []*big.Int{bi(0), bi(3000000000000000), sub(P, bi(1)), r.BigBelow(P)})
-			setParams()
-		}
 		pre := w.observe(ctx)
-		o := w.genOp(r, pre, fee)
+		// ---- governance: the parameters change while pools exist
+		if r.Chance(govRate) {
+			oldFee, oldAl := w.readParams(ctx)
+			newFee, newAl := oldFee, append([]bool{}, oldAl...)
+			var live, liveOff, deadOff, on []int
+			for j := range pids {
+				_, _, sh := pre.pool(j)
+				switch {
+				case oldAl[j] && sh.Sign() > 0:
+					live = append(live, j)
+				case !oldAl[j] && sh.Sign() > 0:
+					liveOff = append(liveOff, j)
+				case !oldAl[j]:
+					deadOff = append(deadOff, j)
+				}
+				if oldAl[j] {
+					on = append(on, j)
+				}
+			}
+			what := ""
+			target := -1
+			switch roll := r.Intn(10); {
+			case roll < 3 && len(live) > 0: // an allowed pool that holds liquidity is removed from the list
+				target, what = live[r.Intn(len(live))], "delist-live"
+				newAl[target] = false
+			case roll < 5 && len(liveOff) > 0: // ... and re-added later
+				target, what = liveOff[r.Intn(len(liveOff))], "relist-live"
+				newAl[target] = true
+			case roll < 6 && len(deadOff) > 0: // a new pool is allowed mid-run
+				target, what = deadOff[r.Intn(len(deadOff))], "list-new"
+				newAl[target] = true
+			case roll < 7 && len(on) > 0 && len(live) == 0:
+				target, what = on[r.Intn(len(on))], "delist-empty"
+				newAl[target] = false
+			case roll == 7: // every pool removed at once
+				for j := range newAl {
+					newAl[j] = false
+				}
+				what = "delist-all"
+				if len(live) > 0 {
+					target = live[r.Intn(len(live))]
+				}
+			default: // the fee changes between swaps
+				what = "fee"
+				newFee = c.Pick(r, govFees)
+				if r.Chance(30) {
+					newFee = r.BigBelow(P)
+				}
+				if r.Chance(25) { // fee and list in one proposal
+					j := r.Intn(len(pids))
+					newAl[j] = !newAl[j]
+					what = "fee+toggle"
+					target = j
+				}
+				if newFee.Cmp(oldFee) > 0 {
+					what += "-up"
+				} else if newFee.Cmp(oldFee) < 0 {
+					what += "-down"
+				}
+				if len(live)+len(liveOff) > 0 && target < 0 {
+					all := append(append([]int{}, live...), liveOff...)
+					target = all[r.Intn(len(all))]
+				}
+			}
+			setParams(newFee, newAl)
+			post := w.observe(ctx)
+			feeIn, alIn := w.readParams(ctx)
+			nlive := len(live) + len(liveOff)
+			if nlive > 2 {
+				nlive = 2
+			}
+			out.Case(fmt.Sprintf("gov|%s|live=%d|nD=%d", what, nlive, w.nD), "c07.gov", strconv.Itoa(nA), strconv.Itoa(w.nD),
+				oldFee.String(), boolsOf(oldAl), feeIn.String(), boolsOf(alIn),
+				c.Ints(pre.pools), c.Ints(pre.shares), c.Ints(pre.bal), "=>", c.Ints(post.pools), c.Ints(post.shares), c.Ints(post.bal))
+			out.Note("gov:" + what)
+			if feeIn.Cmp(newFee) != 0 || boolsOf(alIn) != boolsOf(newAl) {
+				out.Note("gov:store-differs-from-written") // not a C07 clause; the cases carry what the store holds
+			}
+			if msg, broken := swapkeeper.AllInvariants(k)(ctx); broken {
+				out.Violation(fmt.Sprintf("seq=%d op=%d parameter change (%s): registered invariant broken: %s", seq, i, what, strings.ReplaceAll(msg, "\n", " ")))
+			}
+			pre = post
+			if target >= 0 {
+				focus, focusLeft = target, 2+r.Intn(4)
+				// what the users of that pool do next: leave, add, trade — in a random order
+				focusKinds = []string{"wd", "dep", "sx", "sfx", "wd"}
+				for x := len(focusKinds) - 1; x > 0; x-- {
+					y := r.Intn(x + 1)
+					focusKinds[x], focusKinds[y] = focusKinds[y], focusKinds[x]
+				}
+			}
+		}
+		// the parameters in force for this message: read from the store, not remembered
+		fee, allowed := w.readParams(ctx)
+		force, forceKind := -1, ""
+		if focusLeft > 0 {
+			focusLeft--
+			force, forceKind = focus, focusKinds[focusLeft%len(focusKinds)]
+			if r.Chance(25) {
+				forceKind = ""
+			}
+		}
+		o := w.genOp(r, pre, fee, force, forceKind)
 		cls, err := w.exec(ctx, o)
 		post := w.observe(ctx)
 		tag := errTag(err)
@@ -546,34 +728,36 @@ func (w *world) seq(out *c.Out, seq int, r *c.Rng) {
 				fmt.Println("PANIC", o.kind, o.who, o.d1, o.x1, o.d2, o.x2, o.z, err)
 			}
 		}
-		pi := 0
+		pi := -1
 		for j, p := range pids {
 			if (p.lo == o.d1 && p.hi == o.d2) || (p.lo == o.d2 && p.hi == o.d1) {
 				pi = j
 			}
 		}
-		_, _, s := pre.pool(pi)
-		_, _, s2 := post.pool(pi)
-		sig := fmt.Sprintf("%s|%s|%s|gen=%s|exists=%v|rev=%v|fee=%s", o.kind, cls, tag, o.gen, s.Sign() > 0, o.d1 > o.d2, feeClass(fee))
-		if cls == kapp.OK {
-			if s.Sign() > 0 && s2.Sign() == 0 {
-				sig += "|pool-deleted"
+		sig := ""
+		if pi >= 0 {
+			_, _, s := pre.pool(pi)
+			_, _, s2 := post.pool(pi)
+			sig = fmt.Sprintf("%s|%s|%s|gen=%s|exists=%v|rev=%v|fee=%s|listed=%v", o.kind, cls, tag, o.gen, s.Sign() > 0, o.d1 > o.d2, feeClass(fee), allowed[pi])
+			if cls == kapp.OK {
+				if s.Sign() > 0 && s2.Sign() == 0 {
+					sig += "|pool-deleted"
+				}
+				if pre.share(o.who, pi).Sign() > 0 && post.share(o.who, pi).Sign() == 0 {
+					sig += "|share-record-deleted"
+				}
+				if pre.share(o.who, pi).Sign() > 0 && o.kind == "dep" {
+					sig += "|existing-depositor"
+				}
 			}
-			if pre.share(o.who, pi).Sign() > 0 && post.share(o.who, pi).Sign() == 0 {
-				sig += "|share-record-deleted"
-			}
-			if pre.share(o.who, pi).Sign() > 0 && o.kind == "dep" {
-				sig += "|existing-depositor"
+			if !allowed[pi] && s.Sign() > 0 {
+				out.Note("delisted-live:" + o.kind + ":" + string(cls))
 			}
 		}
 		if o.gen == "malformed" && cls == kapp.Err {
 			sig = "" // refused by ValidateBasic: trivial
 		}
-		al := make([]string, len(allowed))
-		for j, v := range allowed {
-			al[j] = c.B(v)
-		}
-		f := []string{o.kind, strconv.Itoa(nA), strconv.Itoa(len(denoms)), fee.String(), strings.Join(al, ","),
+		f := []string{o.kind, strconv.Itoa(nA), strconv.Itoa(w.nD), fee.String(), boolsOf(allowed),
 			c.Ints(pre.pools), c.Ints(pre.shares), c.Ints(pre.bal),
 			strconv.Itoa(o.who), strconv.Itoa(o.d1), o.x1.String(), strconv.Itoa(o.d2), o.x2.String(), o.z.String(), "=>", string(cls), tag}
 		if cls == kapp.OK {
